@@ -123,7 +123,11 @@ func Discharge(obls []*Obligation, workDir string, timeoutS, seed, parallel int)
 				o.Output = err.Error()
 				return
 			}
-			r := race(file, timeoutS, seed)
+			to := timeoutS
+			if o.ExpectSat && to > 3 {
+				to = 3
+			}
+			r := race(file, to, seed)
 			o.Status, o.Solver, o.Ms, o.Output = r.status, r.solver, r.ms, r.output
 			o.File = file
 		}(i, o)
